@@ -222,6 +222,7 @@ def ground_apps(formulas, acc, seen):
 
 _INST_CACHE = {}
 _CLASS_CACHE = {}
+_LONG = [False]
 
 
 def classify(hyps):
@@ -534,6 +535,21 @@ def prove_part(hyps, g, t_ms, name):
                 cand = _model_text(s)
         if ins.finished:
             break
+    # model-based refinement: validate candidate models against the bounded quantifiers, add the
+    # violated instances, repeat.  A model that satisfies every quantified hypothesis over its whole
+    # (concrete, bounded) range is a genuine counter-model.
+    try:
+        st_, mtxt, nr = mbqi_lite(s, ground, quants, neg, min(0.75 * t_ms / 1000.0, 60.0))
+    except Exception as e:   # never let the refinement decide by crashing
+        st_, mtxt, nr = "unknown", None, 0
+    if st_ == "proved":
+        return dict(status="proved", backend="z3/mbqi-lite", seconds=time.time() - t0, model=None,
+                    detail=f"refinement rounds={nr}")
+    if st_ == "refuted":
+        return dict(status="refuted", backend="z3/mbqi-lite", seconds=time.time() - t0, model=mtxt,
+                    detail=f"model validated against every bounded quantified hypothesis; rounds={nr}")
+    if mtxt:
+        cand = mtxt
     # full query: every quantified hypothesis present
     full = z3.Solver()
     for h in hyps:
@@ -541,7 +557,7 @@ def prove_part(hyps, g, t_ms, name):
     for h in product_hints(ground + [neg]):
         full.add(h)
     full.add(neg)
-    full.set("timeout", int(t_ms))
+    full.set("timeout", int(0.75 * t_ms))
     r = full.check()
     if r == z3.unsat:
         return dict(status="proved", backend="z3/full", seconds=time.time() - t0, model=None, detail="")
@@ -549,13 +565,16 @@ def prove_part(hyps, g, t_ms, name):
         return dict(status="refuted", backend="z3/full", seconds=time.time() - t0, model=_model_text(full), detail="")
     why = full.reason_unknown()
     smt_b = full.to_smt2()
-    r3, dt3, _, why3 = _run_cvc5(smt_b, t_ms, "String" in smt_b)
+    r3, dt3, _, why3 = _run_cvc5(smt_b, 0.5 * t_ms, "String" in smt_b)
     if r3 == "unsat":
         return dict(status="proved", backend="cvc5", seconds=time.time() - t0, model=None, detail="")
     if r3 == "sat":
         return dict(status="refuted", backend="cvc5", seconds=time.time() - t0, model=cand,
                     detail="model from z3 instantiated query" if cand else "")
-    # instantiated query with the whole budget, then another seed on the full query
+    if not _LONG[0]:
+        return dict(status="unknown", backend="z3+cvc5", seconds=time.time() - t0, model=cand,
+                    detail=f"z3: {why}; cvc5: {why3}; candidate-model={'yes' if cand else 'no'}")
+    # thorough: instantiated query with the whole budget, then another seed on the full query
     s.set("timeout", int(t_ms))
     s.set("random_seed", 5)
     r = s.check()
@@ -569,6 +588,198 @@ def prove_part(hyps, g, t_ms, name):
         return dict(status="refuted", backend="z3/full/seed17", seconds=time.time() - t0, model=_model_text(full), detail="")
     return dict(status="unknown", backend="z3+cvc5", seconds=time.time() - t0, model=cand,
                 detail=f"z3: {why}; cvc5: {why3}; candidate-model={'yes' if cand else 'no'}")
+
+
+def _guard_range(q, m):
+    """concrete [lo, hi) ranges of the bound variables of a bounded forall under model m
+    (None if the guard has not the bounded shape)"""
+    nv = q.num_vars()
+    body = q.body()
+    los, his = [None] * nv, [None] * nv
+    g = None
+    if z3.is_implies(body):
+        g = body.arg(0)
+    elif z3.is_or(body):
+        # Or(not guard, ...) produced by simplification
+        for c in body.children():
+            if z3.is_not(c):
+                g = c.arg(0) if g is None else z3.And(g, c.arg(0))
+    if g is None:
+        return None
+    for c in split_and(g):
+        if not (z3.is_app(c) and c.num_args() == 2):
+            continue
+        k = c.decl().kind()
+        a, b = c.arg(0), c.arg(1)
+        neg_ = False
+        if z3.is_not(c):
+            continue
+
+        def val(t):
+            v = m.eval(t, model_completion=True)
+            return v.as_long() if z3.is_int_value(v) else None
+        if z3.is_var(a) and not has_var(b):
+            i = z3.get_var_index(a)
+            v = val(b)
+            if v is None or i >= nv:
+                continue
+            if k == z3.Z3_OP_GE:
+                los[i] = v if los[i] is None else max(los[i], v)
+            elif k == z3.Z3_OP_GT:
+                los[i] = v + 1 if los[i] is None else max(los[i], v + 1)
+            elif k == z3.Z3_OP_LT:
+                his[i] = v if his[i] is None else min(his[i], v)
+            elif k == z3.Z3_OP_LE:
+                his[i] = v + 1 if his[i] is None else min(his[i], v + 1)
+        elif z3.is_var(b) and not has_var(a):
+            i = z3.get_var_index(b)
+            v = val(a)
+            if v is None or i >= nv:
+                continue
+            if k == z3.Z3_OP_LE:
+                los[i] = v if los[i] is None else max(los[i], v)
+            elif k == z3.Z3_OP_LT:
+                los[i] = v + 1 if los[i] is None else max(los[i], v + 1)
+            elif k == z3.Z3_OP_GT:
+                his[i] = v if his[i] is None else min(his[i], v)
+            elif k == z3.Z3_OP_GE:
+                his[i] = v + 1 if his[i] is None else min(his[i], v + 1)
+    if any(x is None for x in los) or any(x is None for x in his):
+        return None
+    return list(zip(los, his))
+
+
+def model_violations(quants, m, limit=40, max_range=260, deadline=None):
+    """Evaluate every (bounded) universally quantified hypothesis under model m over its
+    concrete range.  Returns (violated_instances, complete): the instances that are false in m
+    (consequences of the hypotheses: sound to add), and whether every hypothesis could be
+    validated completely (then, with no violation, m is a genuine model of the full query)."""
+    viol = []
+    complete = True
+    work = list(quants)
+    seen = set()
+    while work:
+        if deadline is not None and time.time() > deadline:
+            return viol, False
+        q = work.pop()
+        if q.get_id() in seen:
+            continue
+        seen.add(q.get_id())
+        if not is_forall(q):
+            # guard -> forall / existential ...: try the conditional-forall normal form
+            if z3.is_or(q) or z3.is_implies(q):
+                qq = z3.simplify(q)
+                if z3.is_true(qq):
+                    continue
+                cfs = _cond_foralls(qq) if z3.is_or(qq) else []
+                if cfs:
+                    work.extend(cfs)
+                    continue
+            complete = False
+            continue
+        nv = q.num_vars()
+        if nv > 2 or not all(q.var_sort(i) == z3.IntSort() for i in range(nv)):
+            complete = False
+            continue
+        rng = _guard_range(q, m)
+        if rng is None:
+            complete = False
+            continue
+        sizes = [max(0, hi - lo) for lo, hi in rng]
+        if any(sz > max_range for sz in sizes) or (nv == 2 and sizes[0] * sizes[1] > 3600):
+            complete = False
+            continue
+        if nv == 1:
+            combos = [(z3.IntVal(k),) for k in range(rng[0][0], rng[0][1])]
+        else:
+            combos = [(z3.IntVal(a), z3.IntVal(b)) for a in range(rng[0][0], rng[0][1])
+                      for b in range(rng[1][0], rng[1][1])]
+        for combo in combos:
+            inst = z3.simplify(z3.substitute_vars(q.body(), *combo))
+            if z3.is_true(inst):
+                continue
+            for c in split_and(inst):
+                if has_quant(c):
+                    if is_forall(c):
+                        work.append(c)
+                    elif z3.is_or(c):
+                        # evaluate the ground disjuncts: if one is true the clause holds
+                        gd = [x for x in c.children() if not has_quant(x)]
+                        if any(z3.is_true(m.eval(x, model_completion=True)) for x in gd):
+                            continue
+                        cfs = _cond_foralls(c)
+                        if cfs:
+                            work.extend(cfs)
+                        else:
+                            complete = False
+                    else:
+                        complete = False
+                    continue
+                v = m.eval(c, model_completion=True)
+                if z3.is_false(v):
+                    viol.append(c)
+                    if len(viol) >= limit:
+                        return viol, False
+                elif not z3.is_true(v):
+                    complete = False
+    return viol, complete
+
+
+def int_consts(formulas):
+    out = {}
+    seen = set()
+    stack = list(formulas)
+    while stack:
+        t = stack.pop()
+        i = t.get_id()
+        if i in seen:
+            continue
+        seen.add(i)
+        if z3.is_quantifier(t):
+            stack.append(t.body())
+            continue
+        if z3.is_const(t) and z3.is_int(t) and t.decl().kind() == z3.Z3_OP_UNINTERPRETED:
+            out[i] = t
+        stack.extend(t.children())
+    return list(out.values())
+
+
+def mbqi_lite(s, ground, quants, neg, budget_s):
+    """model-based refinement on solver ``s`` (ground + instances + neg already asserted).
+    returns ("proved"|"refuted"|"unknown", model_text, rounds)"""
+    deadline = time.time() + budget_s
+    consts = int_consts(ground + [neg])
+    rounds = 0
+    small_ok = True
+    while time.time() < deadline and rounds < 25:
+        rounds += 1
+        m = None
+        s.set("timeout", int(max(1000, min(8000, (deadline - time.time()) * 1000))))
+        if small_ok:
+            s.push()
+            for c in consts:
+                s.add(c >= -6, c <= 24)
+            r = s.check()
+            if r == z3.sat:
+                m = s.model()
+            s.pop()
+            if r == z3.unsat:
+                small_ok = False      # no small counter-model: go on without the size preference
+        if m is None:
+            r = s.check()
+            if r == z3.unsat:
+                return "proved", None, rounds
+            if r != z3.sat:
+                return "unknown", None, rounds
+            m = s.model()
+        viol, complete = model_violations(quants, m, deadline=deadline)
+        if not viol:
+            if complete and not has_quant(neg):
+                return "refuted", m.sexpr(), rounds
+            return "unknown", m.sexpr(), rounds
+        for c in viol:
+            s.add(c)
+    return "unknown", None, rounds
 
 
 def cover_part(hyps, goal, t_ms):
@@ -618,7 +829,8 @@ def _work(i):
     return out
 
 
-def solve_all(obls, timeout_ms=30000, workers=8, progress=None):
+def solve_all(obls, timeout_ms=30000, workers=8, progress=None, long=False):
+    _LONG[0] = bool(long)
     """returns list of result dicts (one per job).  Obligations with identical
     hypotheses and goal (same z3 ASTs) are solved once."""
     global _OBLS
